@@ -172,7 +172,8 @@ func VerifC18NewAddressRetry() {
 	rt.Assume(st.allowed())
 	n := st.n
 	st.db.Calls = 0
-	st.db.FaultAt = rt.NondetLen(1, 8)
+	st.db.FaultWrites = true // a put can fail too (the n-th storage call of the request fails, whatever it is)
+	st.db.FaultAt = rt.NondetLen(1, 10)
 	_, err := st.issue()
 	faulted := st.db.Calls >= st.db.FaultAt
 	if faulted {
